@@ -5,8 +5,9 @@ For every signed packet (all shipped signers x Interest/Data x signatures shorte
    specification (Spec/SignedPortion.v) read off the produced wire; digest component == SHA-256(spec digest portion);
  * parse side: SignaturePtrs reported by parse_interest / parse_data == the specification, on the packet and on
    every mutant that still parses;
- * the matching verifier accepts the packet and rejects every mutant whose (signed portion, signature value)
-   differs; params_sha256_checker accepts iff digest component == SHA-256(spec digest portion).
+ * the matching verifier -- the verify_* function AND the shipped KnownChecker object for the key, made once and
+   shown the genuine packet before its mutants -- accepts the packet and rejects every mutant whose (signed portion,
+   signature value) differs; params_sha256_checker accepts iff digest component == SHA-256(spec digest portion).
 """
 import hashlib
 
@@ -106,13 +107,27 @@ def check_packet(ctx, M, kind, wire, rec, verify, label, mutate=True):
             return None
         if verify is not None:
             try:
-                return bool(verify(ptrs))
+                r = bool(verify(ptrs))
             except Exception:   # noqa
-                return False
+                r = False
+            ck = getattr(verify, 'checker', None)
+            if ck is None:
+                return (r, r)
+            # the shipped checker object for the same key is "that verifier" too; it is made once and has seen the
+            # genuine packet before its mutants (a verifier that remembers what it accepted must not accept more
+            # because of it).  accepted-by-any is what the tamper clause judges, accepted-by-all the genuine packet.
+            try:
+                r2 = bool(run_coro(ck(name, ptrs)))
+            except Exception:   # noqa
+                r2 = False
+            if r2 and not r:
+                ctx.stat('verdict.checker-accepts-what-verify-rejects')
+            return (r or r2, r and r2)
         if label.startswith('digest'):
             if ptrs.signature_info.signature_type != 0:
                 return None      # not a DigestSha256 packet any more: the digest checker is not its verifier
-            return bool(run_coro(sha256_digest_checker(name, ptrs)))
+            r = bool(run_coro(sha256_digest_checker(name, ptrs)))
+            return (r, r)
         return None
 
     st = parsed_state(wire)
@@ -126,7 +141,7 @@ def check_packet(ctx, M, kind, wire, rec, verify, label, mutate=True):
         ctx.violation(f'parse_{kind}', 'reported-bytes-not-spec', 'SignaturePtrs.signature_covered_part is not the specified signed portion', case)
     sig0 = bytes(ptrs.signature_value_buf) if ptrs.signature_value_buf is not None else None
     ok = verdict(name, ptrs)
-    if ok is False:
+    if ok is not None and not ok[1]:
         ctx.violation('verifier', 'valid-signature-rejected', f'{label}: the matching verifier rejects the signed packet', case)
     if kind == 'interest':
         if not run_coro(params_sha256_checker(name, ptrs)):
@@ -187,12 +202,12 @@ def check_packet(ctx, M, kind, wire, rec, verify, label, mutate=True):
             changed = (spec2, sig2) != (spec, sig0)
         else:
             changed = (rep2, sig2) != (rep, sig0)
-        if ok2 is True and changed and ptrs2.signature_info is not None:
+        if ok2 is not None and ok2[0] and changed and ptrs2.signature_info is not None:
             # digest "signatures" are unkeyed: a recomputed digest is a different signed packet, not a forgery
             if not (label.startswith('digest') and spec2 is not None and sig2 == hashlib.sha256(spec2).digest()):
                 ctx.violation('verifier', 'tampered-accepted',
                               f'{label}: a packet differing in signed portion / signature value verifies', c2)
-        if ok2 is False and not changed:
+        if ok2 is not None and not ok2[0] and not changed:
             ctx.stat('mutant.untouched-but-rejected')     # not demanded by the property: recorded only
         if kind == 'interest':
             dp2, dc2 = opt(M([12, v2])), opt(M([13, v2]))
@@ -212,7 +227,7 @@ def check_packet(ctx, M, kind, wire, rec, verify, label, mutate=True):
             if got != want and ndig <= 1 and canonical_order(kind, v2):
                 ctx.violation('params_sha256_checker', 'digest-check-not-iff',
                               f'checker says {got}, digest component == SHA-256(AppParams..end) is {want}', c2)
-        ctx.case((kind, w2), True, None, f'{kind}.{label}.{mk}.{"changed" if changed else "same"}.{ok2}')
+        ctx.case((kind, w2), True, None, f'{kind}.{label}.{mk}.{"changed" if changed else "same"}.{None if ok2 is None else ok2[0]}')
 
 
 def run(ctx):
